@@ -479,7 +479,7 @@ def run(ctx: Any) -> None:
                 "distinct by (calls); non-trivial = contains a failure call followed by at least one more call")
 
     # ---------------------------------------------------------------- histories
-    n_hist = 220 if thorough else 80
+    n_hist = 200 if thorough else 60
     hists: list[list[dict[str, Any]]] = []
     for label in FAULTS:                      # every failure kind at every position of a short history
         for pos in range(3):
